@@ -457,6 +457,67 @@ class WrongFile(Bytes):
         return 40 if tier == 'quick' else 14 * 100
 
 
+class WildcardCost(Stage):
+    """an accepted matcher can be evaluated on any message: wildcard patterns with many `*` against long names and strings made of
+    the same few letters (`*a*a*a*...*b` against `aaaa...a`).  A fresh process evaluates the matcher on one message under a limit
+    of 20 s - five orders of magnitude above what the star-free control needs in the same process; only a run whose control
+    finished and whose subject did not is a violation (a process that cannot even do the control is inconclusive)."""
+    name = 'wildcard-cost'
+
+    def examples(self, tier):
+        return 14 if tier == 'quick' else 14 * 30
+
+    def gen(self, d, tier):
+        letters = d.choice(['a', 'ab', 'a_'])
+        k = d.choice([3, 8, 12, 16, 20, 24])
+        pieces = [d.text(letters, 1, 2) for _ in range(k)]
+        pat = '*' + '*'.join(pieces) + '*' + d.choice(['b', 'z', 'x_', ''])
+        text = d.text(letters, 30, 70)
+        where = d.choice(['type', 'name', 'string', 'label-list'])
+        return dict(pattern=pat, text=text, where=where)
+
+    def execute(self, case):
+        import subprocess, json as _json
+        from .. import cli
+        res = Result()
+        res.evals = 1
+        pat, text, where = case['pattern'], case['text'], case['where']
+        mt = {'type': pat, 'name': '.' + pat, 'string': '(' + pat + ')', 'label-list': '[' + pat + ', wl_zzz].[' + pat + ']'}[where]
+        prog = (
+            'import sys, json, time\n'
+            'sys.path.insert(0, %r)\n'
+            'from core import matcher, wl\n'
+            'from core.wl.message import MockMessage\n'
+            'from core.wl.object import MockObject\n'
+            'mt, text, where = json.loads(sys.argv[1])\n'
+            'm = MockMessage(obj=MockObject(type=text if where in ("type", "label-list") else "wl_x", id=3), name=text if where in ("name", "label-list") else "frob",\n'
+            '                args=(wl.Arg.String(text),) if where == "string" else ())\n'
+            'ctl = matcher.parse(text if where != "string" else "(" + text + ")").simplify()\n'
+            't0 = time.time(); ctl.matches(m); print("control", time.time() - t0, flush=True)\n'
+            'p = matcher.parse(mt).simplify()\n'
+            't0 = time.time(); r = p.matches(m); print("subject", r, time.time() - t0, flush=True)\n' % env.REPO)
+        try:
+            r = subprocess.run([cli.PY, '-c', prog, _json.dumps([mt, text, where])], capture_output=True, text=True, timeout=20, env=cli.base_env(None))
+            out, timed_out = r.stdout, False
+        except subprocess.TimeoutExpired as e:
+            out = (e.stdout or b'').decode() if isinstance(e.stdout, bytes) else (e.stdout or '')
+            timed_out = True
+        if 'control' not in out:
+            res.label('control-did-not-run(inconclusive)')
+            return res
+        if timed_out:
+            res.bad('matcher-evaluation-does-not-finish', 'matcher %r (accepted) evaluated on a message whose %s is %r: not finished after 20 s; the star-free control took %s s' % (
+                mt, where, text, out.split()[1]))
+        elif 'subject' not in out:
+            res.bad('matcher-evaluation-fails', 'matcher %r on %r: %r %r' % (mt, text, out[-200:], r.stderr[-300:]))
+        stars = pat.count('*')
+        res.nontrivial = stars >= 12
+        res.label('stars>=12' if stars >= 12 else 'stars<12')
+        res.label('in-' + where)
+        res.sample = dict(matcher=mt, text=text)
+        return res
+
+
 def fuzz_target(target, data):
     """one execution of a fuzz target; never raises for findings (returns them)"""
     from ..runner import safe_execute
@@ -575,7 +636,7 @@ class C18(Prop):
     assumptions = ['a slow input is inconclusive, never a violation', 'LC_ALL=C.UTF-8',
                    'internal errors that the line loop catches, prints and survives are counted (counters internal-error-printed-and-survived:*) but are '
                    'not violations of the statement (the input is consumed to the end and every connection is closed)']
-    stages = [Lines(), Matchers(), Commands(), LongSessionCommands(), Bytes(), WrongFile(), Fuzz()]
+    stages = [Lines(), Matchers(), Commands(), LongSessionCommands(), Bytes(), WrongFile(), WildcardCost(), Fuzz()]
 
 
 PROP = C18()
